@@ -245,6 +245,13 @@ pub fn core_fingerprint(w: &World) -> String {
             CS::Panicked => s.push('X'),
             CS::Dropped => s.push('d'),
         }
+        // A finished inner call whose caller is still unresolved (a failed attempt of a retry,
+        // hedge or reconnect in progress) keeps its instants: both the service's timers and the
+        // oracles' spacing clauses ("no earlier than the delay after the previous attempt")
+        // depend on them, so two histories that differ there have different futures.
+        if k.status != CS::Pending && w.callers.iter().any(|c| c.is_live() && c.req.as_ref().map(|r| r.id) == Some(k.req.id)) {
+            let _ = write!(s, "@{}-{:?}", k.start_ms, k.end_ms);
+        }
         s.push(';');
     }
     s
@@ -573,7 +580,15 @@ pub fn explore<S: Scenario>(scn: &S, opts: &Opts, rep: &mut Report) -> Explored 
         res.sort_by(|a, b| a.0.hist.cmp(&b.0.hist));
         let mut next_frontier: Vec<(Vec<Action>, Vec<Action>)> = vec![];
         let mut seen_g = seen.lock().unwrap();
+        // debugging aid: VERIF_TRACE_HIST="X0,T,A0:0" reports what happens to each prefix
+        let traced: Option<Vec<String>> = std::env::var("VERIF_TRACE_HIST").ok().map(|t| t.split(',').map(|x| x.trim().to_string()).collect());
         for (child, e) in res.iter() {
+            if let Some(t) = &traced {
+                let enc: Vec<String> = child.hist.iter().map(|a| a.enc()).collect();
+                if enc.len() <= t.len() && enc[..] == t[..enc.len()] {
+                    eprintln!("TRACE {label} {:?}: new={} viols={} enabled={:?} fp={}", enc, !seen_g.contains(&child.fp), e.viols.len(), child.enabled.iter().map(|a| a.enc()).collect::<Vec<_>>(), e.fingerprint);
+                }
+            }
             absorb(scn, &label, &child.hist, e, rep);
             if opts.record_futures {
                 ex.futures.entry(child.fp).or_default().insert(format!("{:?}|{}", child.enabled, e.epilogue_sig));
